@@ -674,45 +674,67 @@ impl Property for C07 {
                         Some((String::new(), false, v["32"].as_str()?.to_string(), v["33"].as_bool()?, v["34"].as_bool()?))
                     }
                 };
-                for n in cand.admin_nodes.iter().map(|u| &u.node) {
-                    if n.verifying_key == xk && honest.is_admin(&x64, n.mdate) {
-                        if let Some((k, en, ..)) = entry_of(n) {
-                            entitled.admins.entry(k).or_default().push(UserEntry { date: n.mdate, enabled: en });
-                        }
-                    }
-                }
-                for an in &cand.auth_nodes {
-                    let gid = b64(&an.node.id);
-                    let admin_at = |d: i64| honest.is_admin(&x64, d);
-                    let uadmin_at = |d: i64| honest.groups.get(&gid).map(|g| g.is_user_admin(&x64, d)).unwrap_or(false);
-                    if !entitled.groups.contains_key(&gid) {
-                        // a whole group authored by the attacker while it was an admin is an entitled addition
-                        if an.node.verifying_key == xk && admin_at(an.node.mdate) {
-                            entitled.groups.insert(gid.clone(), GroupModel::default());
-                        } else {
-                            continue;
-                        }
-                    }
-                    for n in an.user_nodes.iter().map(|u| &u.node) {
-                        if n.verifying_key == xk && (admin_at(n.mdate) || uadmin_at(n.mdate)) {
+                // least fixpoint from the honest entries: an entry the attacker authored while entitled can itself
+                // entitle later entries of the attacker (it made itself user admin of a group while it was an admin,
+                // and as such adds users after its administrator entry was withdrawn)
+                loop {
+                    let base = entitled.clone();
+                    let has_user = |list: Option<&Vec<UserEntry>>, date: i64, en: bool| list.map(|l| l.iter().any(|e| e.date == date && e.enabled == en)).unwrap_or(false);
+                    for n in cand.admin_nodes.iter().map(|u| &u.node) {
+                        if n.verifying_key == xk && base.is_admin(&x64, n.mdate) {
                             if let Some((k, en, ..)) = entry_of(n) {
-                                entitled.groups.get_mut(&gid).unwrap().users.entry(k).or_default().push(UserEntry { date: n.mdate, enabled: en });
+                                if !has_user(entitled.admins.get(&k), n.mdate, en) {
+                                    entitled.admins.entry(k).or_default().push(UserEntry { date: n.mdate, enabled: en });
+                                }
                             }
                         }
                     }
-                    for n in an.user_admin_nodes.iter().map(|u| &u.node) {
-                        if n.verifying_key == xk && admin_at(n.mdate) {
-                            if let Some((k, en, ..)) = entry_of(n) {
-                                entitled.groups.get_mut(&gid).unwrap().user_admins.entry(k).or_default().push(UserEntry { date: n.mdate, enabled: en });
+                    for an in &cand.auth_nodes {
+                        let gid = b64(&an.node.id);
+                        let admin_at = |d: i64| base.is_admin(&x64, d);
+                        let uadmin_at = |d: i64| base.groups.get(&gid).map(|g| g.is_user_admin(&x64, d)).unwrap_or(false);
+                        if !entitled.groups.contains_key(&gid) {
+                            // a whole group authored by the attacker while it was an admin is an entitled addition
+                            if an.node.verifying_key == xk && admin_at(an.node.mdate) {
+                                entitled.groups.insert(gid.clone(), GroupModel::default());
+                            } else {
+                                continue;
+                            }
+                        }
+                        for n in an.user_nodes.iter().map(|u| &u.node) {
+                            if n.verifying_key == xk && (admin_at(n.mdate) || uadmin_at(n.mdate)) {
+                                if let Some((k, en, ..)) = entry_of(n) {
+                                    let g = entitled.groups.get_mut(&gid).unwrap();
+                                    if !has_user(g.users.get(&k), n.mdate, en) {
+                                        g.users.entry(k).or_default().push(UserEntry { date: n.mdate, enabled: en });
+                                    }
+                                }
+                            }
+                        }
+                        for n in an.user_admin_nodes.iter().map(|u| &u.node) {
+                            if n.verifying_key == xk && admin_at(n.mdate) {
+                                if let Some((k, en, ..)) = entry_of(n) {
+                                    let g = entitled.groups.get_mut(&gid).unwrap();
+                                    if !has_user(g.user_admins.get(&k), n.mdate, en) {
+                                        g.user_admins.entry(k).or_default().push(UserEntry { date: n.mdate, enabled: en });
+                                    }
+                                }
+                            }
+                        }
+                        for n in an.right_nodes.iter().map(|u| &u.node) {
+                            if n.verifying_key == xk && admin_at(n.mdate) {
+                                if let Some((_, _, ent, own, all)) = entry_of(n) {
+                                    let g = entitled.groups.get_mut(&gid).unwrap();
+                                    let e = RightEntry { date: n.mdate, own: own || all, all };
+                                    if !g.rights.get(&ent).map(|l| l.contains(&e)).unwrap_or(false) {
+                                        g.rights.entry(ent).or_default().push(e);
+                                    }
+                                }
                             }
                         }
                     }
-                    for n in an.right_nodes.iter().map(|u| &u.node) {
-                        if n.verifying_key == xk && admin_at(n.mdate) {
-                            if let Some((_, _, ent, own, all)) = entry_of(n) {
-                                entitled.groups.get_mut(&gid).unwrap().rights.entry(ent).or_default().push(RightEntry { date: n.mdate, own: own || all, all });
-                            }
-                        }
+                    if entitled == base {
+                        break;
                     }
                 }
             }
